@@ -148,6 +148,8 @@ def contains(I, container, item):
         return z3.Or(*alts) if alts else False
     if isinstance(container, str) and isinstance(item, str):
         return item in container
+    if isinstance(container, SV) and isinstance(container.ty, TMap):
+        return map_has(I, container, item)
     if isinstance(container, SV) and isinstance(container.ty, TSeq):
         n = seq_len(I, container)
         k = fresh("k", z3.IntSort())
@@ -160,6 +162,42 @@ def contains(I, container, item):
         if r is not NotImplemented:
             return r
     raise Unsupported("membership test in %r" % (container,))
+
+
+def map_has(I, m, key):
+    ctx = I.ctx
+    return z3.Select(z3.Select(ctx.field_array("$mhas"), ctx.ref_id(m)), ctx.to_val(key).t)
+
+
+def map_get(I, m, key):
+    ctx = I.ctx
+    t = z3.Select(z3.Select(ctx.field_array("$mval"), ctx.ref_id(m)), ctx.to_val(key).t)
+    return ctx.typed(t, m.ty.val)
+
+
+def materialise_seq(I, v, ty):
+    """a python-level list/tuple of known length as a fresh heap sequence of shape ty"""
+    ctx = I.ctx
+    new = ctx.alloc(None, ty)
+    idt = ctx.ref_id(new)
+    arr = z3.K(z3.IntSort(), Z.NONE)
+    for k, x in enumerate(v.items):
+        arr = z3.Store(arr, z3.IntVal(k), ctx.to_val(x).t)
+    ctx.store_raw(idt, "$len", z3.IntVal(len(v.items)))
+    ctx.store_raw(idt, "$item", arr)
+    return new
+
+
+def map_set(I, m, key, value):
+    ctx = I.ctx
+    if isinstance(value, (VList, VTuple)) and isinstance(m.ty.val, TSeq):
+        value = materialise_seq(I, value, m.ty.val)
+    idt = ctx.ref_id(m)
+    kt = ctx.to_val(key).t
+    has = ctx.field_array("$mhas")
+    val = ctx.field_array("$mval")
+    ctx.heap["$mhas"] = z3.Store(has, idt, z3.Store(z3.Select(has, idt), kt, z3.BoolVal(True)))
+    ctx.heap["$mval"] = z3.Store(val, idt, z3.Store(z3.Select(val, idt), kt, ctx.to_val(value).t))
 
 
 def _is_identity_only(x):
@@ -195,6 +233,10 @@ def subscript(I, obj, idx):
         if not ctx.branch(ok, "index-in-range"):
             raise PyRaise(I.make_exception(ExternalRef("IndexError"), ["index out of range"]))
         return seq_item(I, obj, kt)
+    if isinstance(obj, SV) and isinstance(obj.ty, TMap):
+        if not ctx.branch(map_has(I, obj, idx), "key-present"):
+            raise PyRaise(I.make_exception(ExternalRef("KeyError"), [idx]))
+        return map_get(I, obj, idx)
     if isinstance(obj, ExcArgs):
         k = _const_index(idx)
         if k in (0, 1):
@@ -235,6 +277,8 @@ def store_subscript(I, obj, idx, v):
             raise Unsupported("symbolic index store")
         obj.items[k] = v
         return
+    if isinstance(obj, SV) and isinstance(obj.ty, TMap):
+        return map_set(I, obj, idx, v)
     if isinstance(obj, NativeObj) and hasattr(obj, "setitem"):
         return obj.setitem(I, idx, v)
     h = I.E.externals.get("store_subscript")
@@ -981,6 +1025,42 @@ def call_method(I, obj, name, args, kwargs):
             return opaque_str(I, "str.format")
     if isinstance(obj, SV) and isinstance(obj.ty, TSeq) and obj.ty.kind == "dict-items" and name == "items" and not args:
         return obj
+    if isinstance(obj, SV) and isinstance(obj.ty, TMap):
+        if name == "get":
+            if ctx.branch(map_has(I, obj, args[0]), "key-present"):
+                return map_get(I, obj, args[0])
+            return args[1] if len(args) > 1 else None
+        if name == "setdefault":
+            if ctx.branch(map_has(I, obj, args[0]), "key-present"):
+                return map_get(I, obj, args[0])
+            dflt = args[1] if len(args) > 1 else None
+            if isinstance(dflt, (VList, VTuple)) and isinstance(obj.ty.val, TSeq):
+                dflt = materialise_seq(I, dflt, obj.ty.val)
+            map_set(I, obj, args[0], dflt)
+            return dflt
+        if name == "clear":
+            idt = ctx.ref_id(obj)
+            has = ctx.field_array("$mhas")
+            ctx.heap["$mhas"] = z3.Store(has, idt, z3.K(Z.Val, z3.BoolVal(False)))
+            return None
+    if isinstance(obj, SV) and isinstance(obj.ty, TSeq) and obj.ty.kind == "list":
+        n = seq_len(I, obj)
+        if name == "append":
+            idt = ctx.ref_id(obj)
+            items = ctx.field_array("$item")
+            ctx.heap["$item"] = z3.Store(items, idt, z3.Store(z3.Select(items, idt), n, ctx.to_val(args[0]).t))
+            ctx.heap["$len"] = z3.Store(ctx.field_array("$len"), idt, n + 1)
+            return None
+        if name == "clear":
+            ctx.heap["$len"] = z3.Store(ctx.field_array("$len"), ctx.ref_id(obj), z3.IntVal(0))
+            return None
+        if name == "extend":
+            conc = I.try_concrete_iter(args[0])
+            if conc is None:
+                raise Unsupported("list.extend with a sequence of unknown length")
+            for x in conc:
+                call_method(I, obj, "append", [x], {})
+            return None
     h = I.E.externals.get("method")
     if h is not None:
         r = h(I, obj, name, args, kwargs)
